@@ -8,7 +8,7 @@ import core
 import gen
 
 PID = 'C12'
-MODULES = ['FFVerif.Proofs.C12', 'FFVerif.Proofs.C12Chain', 'FFVerif.Proofs.C20Align', 'FFVerif.Proofs.C12Basis']
+MODULES = ['FFVerif.Proofs.C12', 'FFVerif.Proofs.C12Chain', 'FFVerif.Proofs.C20Align', 'FFVerif.Proofs.C12Basis', 'FFVerif.Proofs.VecGen']
 
 
 def fail(res, clause, case, out, sig=None):
@@ -65,12 +65,20 @@ def explore(res, rng, n):
             fail(res, 'curvature towards the origin does not raise the estimate', case, [outs, form])
         reqs.append('c12 ' + ' '.join(str(gen.bits(x)) for x in [beta, form, float(phi(beta)), float(Phi(beta))] + ks))
         meta.append((case, outs))
+        reqs.append('c12gen ' + ' '.join(str(gen.bits(x)) for x in [beta, form, float(phi(beta)), float(Phi(beta))] + ks))
+        meta.append((case, outs))
     for (case, outs), a in zip(meta, core.driver_batch(reqs)):
         res.traces += 1
         if a == 'bad-request':
             res.disagreements.append({'what': 'model driver has no c12 command', 'input': case})
             continue
-        b, h = [gen.unbits(x) for x in a.split()]
+        vals = [gen.unbits(x) for x in a.split()]
+        if len(vals) == 3:
+            # the definitions regenerated from the source text (Gen/VecFormulas.lean), all three estimates
+            if not (gen.close(vals[0], outs['breitung'], 1e-11) and gen.close(vals[1], outs['tvedt'], 1e-9) and gen.close(vals[2], outs['hrack'], 1e-11)):
+                res.disagreements.append({'what': 'closing formulas vs the regenerated definitions (translation validation)', 'input': case, 'impl': outs, 'model': vals})
+            continue
+        b, h = vals
         if not gen.close(b, outs['breitung'], 1e-11) or not gen.close(h, outs['hrack'], 1e-11):
             res.disagreements.append({'what': 'closing formulas vs model', 'input': case, 'impl': outs, 'model': [b, h]})
     # ---- curvature extraction on rotated paraboloids in standard normal space
@@ -195,6 +203,8 @@ def run(tier, seed):
     res = core.Result(PID, tier, seed)
     res.rule = ('closing formulas on random (beta, curvature vector) incl. all-zero and negative curvatures; rotated paraboloids in standard '
                 'normal space (dimension 2-4); flat limit states (correlated normals, origin in the failure set, lognormal product / ratio); distinct by case')
+    import translate_vec
+    translate_vec.regenerate(res)      # Gen/VecFormulas.lean from the current source (numpy vector expressions)
     core.prove(res, PID, MODULES, clean=(tier == 'thorough'))
     n = 6 if tier == 'quick' else 120
     explore(res, random.Random(seed), n)
